@@ -79,10 +79,10 @@ def price_path(rng, T, kind="walk"):
     return out
 
 
-GEN_KEYS = ("nops", "capital", "p_defer", "p_redundant", "allow_illformed", "fund_subs", "p_unsettled", "p_flow", "p_custom", "same_sec", "leverage", "daytrade", "zero_outlay", "reopen", "giveaway")
+GEN_KEYS = ("nops", "capital", "p_defer", "p_redundant", "allow_illformed", "fund_subs", "p_unsettled", "p_flow", "p_custom", "same_sec", "leverage", "daytrade", "zero_outlay", "reopen", "giveaway", "brink")
 
 
-def make_C(rng, tree=None, T=4, comm=None, spread=None, integer=True, mults=(1, 1, 1, 2, 5), late=False, D=50000, crash=False, bidoffer=None, delist=False, zerodip=False, penny=False):
+def make_C(rng, tree=None, T=4, comm=None, spread=None, integer=True, mults=(1, 1, 1, 2, 5), late=False, D=50000, crash=False, bidoffer=None, delist=False, zerodip=False, penny=False, flatpx=False):
     tree = tree or rng.choice(list(TREES))
     kinds, par, names = TREES[tree]
     N = len(kinds)
@@ -178,6 +178,11 @@ def make_C(rng, tree=None, T=4, comm=None, spread=None, integer=True, mults=(1, 
                     C["px"][i] = [[rng.choice([0, 0, 1, 2, 3]), 1] for _ in range(T)]
                 C["spread"][i] = [Z] * T
         C["integer"] = bool(integer)
+    if flatpx:
+        # quotes that do not move: what changes the value between two dates is the carry alone
+        for i in range(N):
+            if kinds[i] != "strat":
+                C["px"][i] = [C["px"][i][0]] * T
     # same ticker in several sub-strategies shares the multiplier too
     seen = {}
     for i in range(N):
@@ -193,8 +198,9 @@ WEIGHTS = [Fraction(0), Fraction(1, 4), Fraction(1, 2), Fraction(1), Fraction(-1
 class HistoryGen:
     """Online generator of operation histories for one configuration."""
 
-    def __init__(self, rng, C, nops=10, capital=None, p_defer=0.15, p_redundant=0.15, allow_illformed=False, fund_subs=True, p_unsettled=0.0, p_flow=0.23, p_custom=0.0, same_sec=False, leverage=False, daytrade=0.0, zero_outlay=0.0, reopen=0.0, giveaway=0.0):
+    def __init__(self, rng, C, nops=10, capital=None, p_defer=0.15, p_redundant=0.15, allow_illformed=False, fund_subs=True, p_unsettled=0.0, p_flow=0.23, p_custom=0.0, same_sec=False, leverage=False, daytrade=0.0, zero_outlay=0.0, reopen=0.0, giveaway=0.0, brink=0.0):
         self.rng = rng
+        self.brink = brink
         self.giveaway = giveaway
         self.reopen = reopen
         self.daytrade = daytrade
@@ -349,6 +355,15 @@ class HistoryGen:
             if not self.subtree_usable(s_):
                 return None
             return {"op": "transact", "node": s_, "a": [rng.choice([10, 50, -20, 100]), 1], "b": NAN, "upd": upd}
+        if upd and self.brink and rng.random() < self.brink and last and "val" in last and self.t < C["T"]:
+            # take the root to the brink: a withdrawal that leaves a value of a few ticks, so that
+            # the carry swept at the next date decides on which side of zero the tree stands
+            carry = [x for x in self.secs if C["kind"][x - 1] in ("cpsec", "cphedge") and C["par"][x - 1] == 1 and last["pos"][x - 1] != 0]
+            v = last["val"][0]
+            if carry and v == v and v > 20 and all(C["px"][x - 1][self.t][1] != 0 or last["pos"][x - 1] == 0 for x in self.secs):
+                self.t += 1
+                self.queue.insert(0, {"op": "update", "date": self.t})
+                return {"op": "adjust", "node": 1, "a": [-int(v) + rng.choice([1, 3, 6, -2, 10]), 1], "flow": rng.random() < 0.5, "upd": True}
         if upd and self.giveaway and rng.random() < self.giveaway:
             # a trade that moves no cash at all: a bespoke price of exactly zero (needs bid/offer
             # accounting), or a security quoted at zero
